@@ -112,6 +112,7 @@ type State struct {
 	obs    []obsRec  // vObserve outputs
 	known  []string  // known-finding classes this path belongs to
 	yields []string  // vYield ids granted on this path
+	uf     bool      // an uninterpreted-function stub influenced this path
 }
 
 type ndRec struct {
@@ -201,6 +202,7 @@ func (s *State) clone() *State {
 	n.obs = append([]obsRec(nil), s.obs...)
 	n.known = append([]string(nil), s.known...)
 	n.yields = append([]string(nil), s.yields...)
+	n.uf = s.uf
 	n.pc = append([]*Term(nil), s.pc...)
 	n.reached = map[string]bool{}
 	for k := range s.reached {
@@ -902,11 +904,21 @@ func (m *Machine) exec(s *State, f *Frame, in ssa.Instruction) []*State {
 		return m.execSlice(s, f, x)
 	case *ssa.MakeSlice:
 		ln, cp := sc(s.get(x.Len)), sc(s.get(x.Cap))
+		et := x.Type().Underlying().(*types.Slice).Elem()
+		if !cp.konst && cp == ln {
+			// symbolic length: enumerate the feasible values (bounded), negative = panic
+			if ln.w < 64 {
+				ln = c.SignExt(ln, 64)
+			}
+			return m.enumIndex(s, f, x, ln, 0, m.maxMake(), "make length", func(st *State, n int) {
+				id := st.alloc(ArrayV{n: n, def: m.zero(et)})
+				st.top().env[x] = SliceV{obj: id, off: 0, len: n, cap: n}
+			})
+		}
 		if !ln.konst || !cp.konst {
-			s.fail("unsupported", "symbolic make length")
+			s.fail("unsupported", "symbolic make length/cap")
 			return nil
 		}
-		et := x.Type().Underlying().(*types.Slice).Elem()
 		id := s.alloc(ArrayV{n: int(cp.cv), def: m.zero(et)})
 		f.env[x] = SliceV{obj: id, off: 0, len: int(ln.cv), cap: int(cp.cv)}
 	case *ssa.Phi:
@@ -1074,6 +1086,8 @@ func (m *Machine) doReturn(s *State, f *Frame, rv []Value) {
 	}
 }
 
+func (m *Machine) maxMake() int { return 1 << 31 }
+
 func (m *Machine) sliceElem(s *State, sl SliceV, i int) Value {
 	arr := getPath(s.heap[sl.obj].v, sl.path).(ArrayV)
 	return arr.get(sl.off + i)
@@ -1101,7 +1115,7 @@ func (m *Machine) enumIndex(s *State, f *Frame, in ssa.Instruction, idx *Term, l
 		out = append(out, bad)
 	}
 	if ok != nil {
-		vals, complete := ok.concretize(idx, hi-lo+2)
+		vals, complete := ok.concretize(idx, min(hi-lo+2, 300))
 		if !complete {
 			ok.fail("unsupported", "could not enumerate index")
 			return append(out, ok)
